@@ -62,7 +62,7 @@ class Polygon(object):
 
             tri_indices = numpy.array([
                 self.indices[0], self.indices[i + 1], self.indices[i + 2]
-            ], dtype=numpy.float32)
+            ])
 
             tri_vertices = numpy.array([
                 self.vertices[0], self.vertices[i + 1], self.vertices[i + 2]
@@ -79,7 +79,7 @@ class Polygon(object):
                     self.normal_indices[0],
                     self.normal_indices[i + 1],
                     self.normal_indices[i + 2]
-                ], dtype=numpy.float32)
+                ])
 
             tri_texcoords = []
             tri_texcoord_indices = []
@@ -94,7 +94,7 @@ class Polygon(object):
                     texcoord_indices[0],
                     texcoord_indices[i + 1],
                     texcoord_indices[i + 2]
-                ], dtype=numpy.float32))
+                ]))
 
             tri = triangleset.Triangle(
                 tri_indices, tri_vertices,
